@@ -1,6 +1,7 @@
 import SecsModel.Props.C10
 #print axioms SecsModel.Props.C10.packet_size_pos
 #print axioms SecsModel.Props.C10.socket_options
+#print axioms SecsModel.Props.C10.single_writer
 #print axioms SecsModel.Props.C10.send_message_truthful
 #print axioms SecsModel.Props.C10.send_all_or_false
 #print axioms SecsModel.Props.C10.send_completes
